@@ -148,6 +148,27 @@ fn gen_case(ch: &mut Ch, degenerate: bool) -> PlanCase {
         };
         c.radius = c.radius.max(c.step);
     }
+    if !degenerate && c.planner != PlannerTag::PRM && ch.prob(0.06) {
+        // one coordinate of an R^n component unbounded: uniform sampling reports an error (the
+        // iteration is skipped), goal samples still drive the tree; extent and resolution come
+        // from the documented fallback for unbounded spaces
+        let mut done = false;
+        for comp in c.space.comps.iter_mut() {
+            if let Comp::RV { bounds: Some(b), .. } = comp {
+                let k = ch.below(b.len());
+                b[k] = match ch.below(3) {
+                    0 => (f64::NEG_INFINITY, f64::INFINITY),
+                    1 => (b[k].0, f64::INFINITY),
+                    _ => (f64::NEG_INFINITY, b[k].1),
+                };
+                done = true;
+                break;
+            }
+        }
+        if done {
+            c.goal_bias = ch.pick(&[0.3, 0.6, 1.0]);
+        }
+    }
     if degenerate {
         // degenerate resolution: fraction 0 / negative / -0.0 on every component
         let f = ch.pick(&[0.0, -1.0, -0.0, -1e-300]);
@@ -209,7 +230,13 @@ fn c06_k<K: Kind>(case: &PlanCase, ctx: &mut Ctx) {
         ctx.label("degenerate-resolution");
         ctx.nontrivial = true;
     }
-    let lvs = trace.lvs;
+    // which worlds count as infeasible is decided with the *documented* resolution, so that a
+    // space reporting an inflated resolution cannot excuse a path through a thick wall
+    let lvs_ref = ref_lvs(&case.space);
+    if !degenerate && !((trace.lvs - lvs_ref).abs() <= 1e-12 * lvs_ref.abs()) {
+        ctx.label("reported-resolution-differs-from-documented");
+    }
+    let lvs = if degenerate { trace.lvs } else { trace.lvs.min(lvs_ref) };
     let worlds = step_worlds(case, &trace);
     let mut cur_problem = 0usize;
     for (i, st) in trace.steps.iter().enumerate() {
@@ -253,6 +280,35 @@ fn c06_k<K: Kind>(case: &PlanCase, ctx: &mut Ctx) {
                 ctx.label("overshoot-not-reproduced(inconclusive)");
             }
         }
+        // "within T plus the cost of one planning iteration", free of timing noise: every
+        // iteration draws exactly one sample, the loop starts after the planner read the clock,
+        // and the deadline is looked at before each iteration - so at most one sampler call of
+        // the loop can fall later than (first sampler call of the loop + T). Calls made before
+        // the loop (RRT-Connect's goal-root re-draw) are the ones in excess of the iteration
+        // count reported by the hook.
+        {
+            let calls = &trace.rec.call_times[st.sampler_calls.0.min(trace.rec.call_times.len())..st.sampler_calls.1.min(trace.rec.call_times.len())];
+            let pre = calls.len().saturating_sub(st.ticks as usize);
+            let looped = &calls[pre..];
+            if let Some(first) = looped.first() {
+                let deadline = *first + limit;
+                let late = looped.iter().filter(|t| **t > deadline).count();
+                if late > 0 {
+                    ctx.label("iteration-in-progress-at-the-deadline");
+                }
+                if late > 1 {
+                    ctx.fail(
+                        format!("C06:iterations-started-after-deadline:{pname}:{what}"),
+                        format!(
+                            "step {i} ({:?}): {late} of {} iterations drew their sample more than T = {:?} after the first iteration's sample, i.e. were started after the deadline had passed (at most one iteration can be in progress at the deadline)",
+                            st.op,
+                            looped.len(),
+                            limit
+                        ),
+                    );
+                }
+            }
+        }
         if let (Op::SolveTimed { .. }, Res::Path(p)) = (&st.op, &st.res) {
             if let Some(w) = inf {
                 // locate the offending edge for the report
@@ -286,7 +342,7 @@ impl Prop for C06 {
     type Case = PlanCase;
     const ID: &'static str = "C06";
     const PART: &'static str = "timed-runs";
-    const RULE: &'static str = "proptest-generated planner cases run under real wall-clock limits T in {0, 1, 5, 20, 50} ms (PRM build time in {0, 1, 5, 20} ms), no iteration budget: feasible worlds and four infeasible families (goal sealed by a closed shell of thickness >= 1.1 L, goal region entirely invalid, start sealed in, and a feasible query followed by setup() with a checker whose world seals the goal) x 4 planners x 6 kinds x parameters x seeds; 10% degenerate resolutions (longest-valid-segment fraction 0 / negative / -0.0, then solve(100 ms)); 12% minute steps (1e-7..1e-4 of the start-goal distance, or 0). Oracle: elapsed <= T + 1 s for solve and construct_roadmap (an overshoot must repeat in 3 more runs of the same case to count), Ok(path) on an infeasible world is a violation, and a call that does not return within the 20 s watchdog is a violation ('blocks indefinitely'). Non-trivial = infeasible world, a deadline that actually fired (Err(Timeout)), or a degenerate resolution.";
+    const RULE: &'static str = "proptest-generated planner cases run under real wall-clock limits T in {0, 1, 5, 20, 50} ms (PRM build time in {0, 1, 5, 20} ms), no iteration budget: feasible worlds and four infeasible families (goal sealed by a closed shell of thickness >= 1.1 L, goal region entirely invalid, start sealed in, and a feasible query followed by setup() with a checker whose world seals the goal) x 4 planners x 6 kinds x parameters x seeds; 10% degenerate resolutions (longest-valid-segment fraction 0 / negative / -0.0, then solve(100 ms)); 12% minute steps (1e-7..1e-4 of the start-goal distance, or 0); 6% of the tree-planner cases with one R^n coordinate unbounded on one or both sides (uniform sampling fails, goal samples drive the tree). Oracle: elapsed <= T + 1 s for solve and construct_roadmap (an overshoot must repeat in 3 more runs of the same case to count); at most one iteration may draw its sample later than T after the first iteration's sample (iterations started after the deadline, from the instants of the sampler calls - independent of how long an iteration takes); Ok(path) on an infeasible world is a violation, and a call that does not return within the 20 s watchdog is a violation ('blocks indefinitely'). Non-trivial = infeasible world, a deadline that actually fired (Err(Timeout)), or a degenerate resolution.";
     const HANG_IS_VIOLATION: bool = true;
     const WATCHDOG_S: u64 = 20;
     const MAX_SHRINK_ITERS: u32 = 100;
